@@ -48,6 +48,10 @@ CHECKS = {
    technique="bounded-exhaustive enumeration of every calendar date against an own calendar reference model",
    text="Every day, month-year and year (quick: three 400-year blocks; thorough: all of 1..9999) is run through the real Date.Time/Years/IsBefore/IsAfter/Duration/Minimum/Maximum and compared with own proleptic-Gregorian arithmetic; exhaustive as the property's quantifier states.",
    note="Trusts ref/cal.go (cross-checked against time.Date for every month at start-up). Far-apart order follows from strict day-to-day monotonicity; pairs checked directly up to 40 (quick) / 400 (thorough) days apart."),
+ "C20": dict(engine="E3", category="exploration", design_ref="§4 C20",
+   technique="bounded-exhaustive enumeration of skeleton family graphs x all slot assignments with up to k deviations from threshold lattices x all record/child permutations, against an independent reference evaluator of the documented warning conditions",
+   text="Skeleton documents (two families sharing a parent with 0-3 children; a 5-record family) with each date/sex slot either at a no-warning default or at a value clearly on one side of a documented threshold; every assignment with up to 2 (quick) / 3 (thorough) deviating slots; all 120 record orders x both child orders of the small skeleton; the multiset of (warning name, people, context) from Document.Warnings() must equal the reference evaluator's.",
+   note="Trusts ref/warn.go + ref/decode.go + ref/cal.go. Thresholds are approached no closer than 30 days (365.25-day-year approximation). Typed warning structs are the observation point for the people involved."),
 }
 
 NOT_APPLICABLE = []
